@@ -239,6 +239,7 @@ void conn_run(const Plan *p, const CredSet *cs, HonestOut *out,
 		out->hs_done_step[s] = e[s]->hs_done_step;
 		out->rd_at_done[s] = e[s]->rd_at_done;
 		out->finished[s] = e[s]->finished;
+		out->draws_at_done[s] = e[s]->draws_at_done; out->draws_at_data_end[s] = e[s]->draws_at_data_end;
 		int d = s == 0 ? DIR_C2S : DIR_S2C;
 		out->nrecmap[d] = e[s]->nrecmap;
 		memcpy(out->recmap[d], e[s]->recmap, sizeof(out->recmap[d]));
